@@ -315,6 +315,21 @@ class World:
             for i in range(1, len(segs)):
                 self.emitted.setdefault('::'.join(segs[:i]), set()).add(segs[i])
 
+    def _shim_names(self, shim):
+        if not hasattr(self, '_shim_cache'):
+            self._shim_cache = {}
+        if shim not in self._shim_cache:
+            try:
+                t = open(os.path.join(VERIF, 'shim', shim + '.rs')).read()
+            except OSError:
+                t = ''
+            names = set(re.findall(r'pub\s+(?:exec\s+)?(?:open\s+|closed\s+|uninterp\s+)?(?:spec\s+|proof\s+|broadcast\s+)?(?:const\s+)?(?:struct|enum|fn|trait|type|const|mod)\s+(\w+)', t))
+            names |= set(re.findall(r'pub\s+use\s+[^;]*?(\w+)\s*;', t))
+            for mg in re.findall(r'pub\s+use\s+[^;{]*\{([^}]*)\}', t):
+                names |= set(re.findall(r'(\w+)\s*(?:,|$)', mg))
+            self._shim_cache[shim] = names
+        return self._shim_cache[shim]
+
     def _leaf_resolves(self, p):
         """p: path list starting with 'crate'"""
         segs = p[1:]
